@@ -180,10 +180,23 @@ def fires (s : St α) (i : Nat) : Bool :=
   | some limit => decide (s.eventHits.getD i 0 ≥ limit)
   | none => false
 
-/-- the `t_eval` samples still due when a terminal event at `te` ends the step -/
+/-- requested times already reported (with the previous step, up to the tolerance beyond its end) that lie beyond the
+    terminal event are taken back: `while let Some(&last) = self.t.last() { … pop … next_idx -= 1 }` -/
+def popBeyond (fwd : Bool) (te : α) : Nat → St α → St α
+  | 0, s => s
+  | f + 1, s =>
+    match s.t.back? with
+    | some last =>
+      let beyond := if fwd then decide (last > te) else decide (last < te)
+      if beyond ∧ s.nextIdx ≠ 0 then popBeyond fwd te f { s with t := s.t.pop, y := s.y.pop, nextIdx := s.nextIdx - 1 }
+      else s
+    | none => s
+
+/-- the `t_eval` samples still due when a terminal event at `te` ends the step (and the pending first output) -/
 def terminalSamples (fwd : Bool) (xold x te : α) (ip : Option (Interp α)) (s : St α) : St α :=
   match s.tEval, ip with
-  | some tev, some ipv => dueBeforeEvent fwd xold te ipv tev (tev.size + 1) s
+  | some tev, some ipv => dueBeforeEvent fwd xold te ipv tev (tev.size + 1) (popBeyond fwd te (s.t.size + 1) s)
+  | some _, none => popBeyond fwd te (s.t.size + 1) s
   | none, some ipv =>
     -- without t_eval, a pending first output x0 ± |first_step| that lies before the event is still due
     match s.firstStep with
